@@ -303,6 +303,13 @@ def resolveArgs (o : Oracles) (a : Args) : Except Err (Resolved × Option Nat) :
   | .str _ => .error .valueError   -- unreachable
   | .none => stepNone o char extDeg a.minOrder
 
+/-- ≙ finfields.GF(modulus) for the modulus produced by the resolution -/
+def mkField (o : Oracles) (md : Modulus) : Except Err Field :=
+  match md with
+  | .int n => gfInt n
+  | .poly p f => gfPoly o p f
+  | _ => .error .valueError
+
 /-- ≙ SecFld up to `field = finfields.GF(modulus)`: sectypes.py:577-626.  Returns the field and the
 final values of the locals `order`, `min_order`. -/
 def resolve (o : Oracles) (a : Args) : Except Err (Field × Nat × Nat) := do
@@ -310,10 +317,7 @@ def resolve (o : Oracles) (a : Args) : Except Err (Field × Nat × Nat) := do
   let order := orD a.order (r.char ^ r.extDeg)           -- `order = order or char**ext_deg`
   let minOrder := orD minOrder order                     -- `min_order = min_order or order`
   check (decide (minOrder ≤ order))                      -- `assert min_order <= order`
-  let fld ← match r.modulus with
-    | .int n => gfInt n
-    | .poly p f => gfPoly o p f
-    | _ => .error .valueError
+  let fld ← mkField o r.modulus                          -- `field = finfields.GF(modulus)`
   pure (fld, order, minOrder)
 
 /-! ### lifting small fields ≙ `_SecFld`, sectypes.py:637-654 -/
@@ -353,12 +357,19 @@ def setupThreshold (m : Int) (t : Option Int) : Except Err Int :=
 /-- l, f, k = sec_param, optional prime p, root order n, parties m, threshold t; `findPrime b n` ≙
 `finfields.find_prime_root(b, n=n)[0]`; `primeO` ≙ `gmpy2.is_prime` inside `pGF` (an oracle here:
 the moduli have 60+ bits, trial division is not an option for the driver) -/
+def pickPrime (findPrime : Nat → Nat → Nat) (l f k : Nat) (p : Option Nat) (n : Nat) : Except Err Nat :=
+  match p with
+  | none => pure (findPrime (l + f + k + 2) n)
+  | some p => if bitLength p ≤ l + f + k + 1 then .error .valueError else pure p
+
+/-- pGF: 'modulus is not a prime' -/
+def requirePrime (primeO : Nat → Bool) (p : Nat) : Except Err Unit :=
+  if primeO p then .ok () else .error .valueError
+
 def pfield (findPrime : Nat → Nat → Nat) (primeO : Nat → Bool) (l f k : Nat) (p : Option Nat)
     (n m t : Nat) : Except Err Nat := do
-  let p ← match p with
-    | none => pure (findPrime (l + f + k + 2) n)
-    | some p => if bitLength p ≤ l + f + k + 1 then .error .valueError else pure p
-  if !primeO p then .error .valueError                     -- pGF: 'modulus is not a prime'
+  let p ← pickPrime findPrime l f k p n
+  requirePrime primeO p
   check (t == 0 || decide (m < p))                         -- field.order = p
   pure p
 
